@@ -365,6 +365,12 @@ Proof.
   right. apply in_or_app. right. apply in_or_app. right. exact H.
 Qed.
 
+Lemma nodup_app_r : forall (A : Type) (a b : list A), NoDup (a ++ b) -> NoDup b.
+Proof.
+  intros A a b. induction a as [|x a IH]; intros H; [exact H|].
+  cbn [app] in H. inversion H as [|x0 l0 Hx Hl]; subst. apply IH. exact Hl.
+Qed.
+
 Section Count.
 Variable f : bytes -> bool.
 Variable tc0 : tcase.
@@ -376,6 +382,21 @@ Hypothesis Hred0 : Forall (fun r => r = true) (tc_red tc0).
 Hypothesis HndC : NoDup core.
 Hypothesis Hcore0 : forall c, In c core -> In c (tc_parts tc0).
 Hypothesis Hct : mp_core_test f tc0 core.
+
+
+(* the lemmas of Section Mono, re-stated under the hypotheses of this section *)
+Lemma c_sub_BF : forall t, sub_reducible tc0 t -> BF tc0 core t.
+Proof. apply sub_BF; assumption. Qed.
+Lemma c_f_true_core : forall t, sub_reducible tc0 t -> f (content t) = true ->
+  forall c, In c core -> In c (tc_parts t).
+Proof. apply f_true_core; assumption. Qed.
+Lemma c_f_tc0 : f (content tc0) = true.
+Proof. apply (f_tc0 f tc0 core); assumption. Qed.
+Lemma c_rm_parts : forall t a b t', BF tc0 core t -> 0 <= a <= b -> b <= tc_len t ->
+  rmslice t a b = Ok t' ->
+  sub_reducible tc0 t' /\
+  tc_parts t' = firstn (Z.to_nat a) (tc_parts t) ++ skipn (Z.to_nat b) (tc_parts t).
+Proof. apply rm_parts; assumption. Qed.
 
 Let m := zlen core.
 Let cp := corep core.
@@ -477,7 +498,7 @@ Lemma blk_false : forall best t A M T,
 Proof.
   intros best t A M T Hsb Hfb Hps Hst Hpt Hf.
   rewrite (Hct t Hst) in Hf. destruct (forallb_false_ex _ _ _ Hf) as [c [Hc Hh]].
-  pose proof (f_true_core f tc0 core Hct best Hsb Hfb c Hc) as Hin.
+  pose proof (c_f_true_core best Hsb Hfb c Hc) as Hin.
   exists c. split; [|apply (corep_true core c); exact Hc].
   rewrite Hps in Hin. apply in_app_or in Hin. destruct Hin as [Hin|Hin].
   - apply in_app_or in Hin. destruct Hin as [Hin|Hin]; [|exact Hin].
@@ -497,7 +518,7 @@ Proof.
   intros best t A M T Hnd Hps Hst Hpt Hf x Hx.
   destruct (cp x) eqn:Ec; [|reflexivity]. exfalso.
   apply (corep_true core x) in Ec.
-  pose proof (f_true_core f tc0 core Hct t Hst Hf x Ec) as Hin. rewrite Hpt in Hin.
+  pose proof (c_f_true_core t Hst Hf x Ec) as Hin. rewrite Hpt in Hin.
   rewrite Hps in Hnd. exact (nodup_mid _ A M T x Hnd Hx Hin).
 Qed.
 
@@ -523,7 +544,7 @@ Lemma in_round : forall s best t,
      PI (k_of s (Tested true)) t /\ Phi (k_of s (Tested true)) t + 1 <= Phi s best).
 Proof.
   intros s best t HM HP Hsb Hfb Hle Hrm.
-  pose proof (sub_BF tc0 core Hwf0 Hnd0 Hred0 best Hsb) as HB.
+  pose proof (c_sub_BF best Hsb) as HB.
   destruct HP as (Hp & H & T & Hps & HH & I4 & I2 & I1).
   pose proof (mi_cs _ _ HM) as Hc1. pose proof (mi_ce _ _ HM) as Hce.
   pose proof m_nonneg as Hm0.
@@ -532,7 +553,8 @@ Proof.
   assert (Hst : fst (block_of s) = m_chunk_end s - m_chunk_size s)
     by (unfold block_of; cbn [fst]; lia).
   rewrite Hst in Hrm.
-  destruct (rm_parts tc0 core Hwf0 _ _ _ t HB ltac:(lia) Hce Hrm) as (Hsubt & Hpt).
+  destruct (c_rm_parts best (m_chunk_end s - m_chunk_size s) (m_chunk_end s) t HB ltac:(lia) Hce Hrm)
+    as (Hsubt & Hpt).
   assert (Hpt' : tc_parts t = A ++ T).
   { rewrite Hpt. f_equal.
     - rewrite Hps, <- app_assoc. apply firstn_app_exact. exact HlA.
@@ -540,6 +562,7 @@ Proof.
   clear Hpt.
   destruct s as [cs mc ce rm dl rd ph].
   cbn [m_chunk_size m_chunk_end] in *.
+  assert (HlM' : zlen M - cs = 0) by lia. clear HlM. rename HlM' into HlM.
   split.
   - (* rejected or skipped *)
     intros Hf o Ho. rewrite (k_of_not_true _ o Ho). unfold k_of.
@@ -573,12 +596,12 @@ Proof.
       * unfold Phi. cbn [m_chunk_size m_chunk_end m_removed]. change (2 <=? 2) with true.
         change (2 <=? 1) with false. cbv iota. lia.
     + (* size >= 4 *)
-      replace (cs <=? 2) with false by lia.
       split.
       * split; [exact Hp|]. cbn [m_chunk_size m_chunk_end].
+        replace (cs <=? 2) with false by lia. cbv iota.
         exists A, (M ++ T). split; [rewrite Hps, <- app_assoc; reflexivity|].
         split; [lia|]. split; [|split; lia].
-        intros _. rewrite zlen_app, cc_app, HlM.
+        intros _. rewrite zlen_app, cc_app.
         pose proof (cc_pos M x HxM Hxc) as H1. specialize (I4 ltac:(lia)). nia.
       * unfold Phi. cbn [m_chunk_size m_chunk_end m_removed].
         replace (cs <=? 1) with false by lia. replace (cs <=? 2) with false by lia.
@@ -607,8 +630,8 @@ Proof.
         assert (Hfa : forallb cp (tc_parts best) = false).
         { destruct (forallb cp (tc_parts best)) eqn:Efa; [|reflexivity].
           rewrite forallb_forall in Efa.
-          rewrite (Efa y) in HM0.
-          - specialize (HM0 y (or_introl eq_refl)). discriminate HM0.
+          pose proof (HM0 y (or_introl eq_refl)) as Hy. rewrite (Efa y) in Hy.
+          - discriminate Hy.
           - rewrite Hps. apply in_or_app. left. apply in_or_app. right. left. reflexivity. }
         rewrite Hfa. cbn [negb]. rewrite orb_true_r. lia.
       * subst cs. change (2 <=? 1) with false. change (2 <=? 2) with true. cbv iota. lia.
@@ -616,4 +639,556 @@ Proof.
         rewrite div_sub_self by lia. lia.
 Qed.
 
+(* the round-end decision with the default configuration *)
+Lemma decide_default : forall s best s', MI s best ->
+  decide_state default_cfg s best = Some s' ->
+  m_chunk_end s' = tc_len best /\ m_removed s' = false /\
+  ((m_chunk_size s = 1 /\ m_removed s = true /\ m_chunk_size s' = 1) \/
+   (1 < m_chunk_size s /\
+    m_chunk_size s' = halve (halve_fuel (m_chunk_size s)) (m_chunk_size s) (tc_len best))).
+Proof.
+  intros s best s' HM Hd. pose proof (mi_cs _ _ HM) as Hc1. pose proof (mi_min _ _ HM) as Hmin.
+  unfold decide_state in Hd. rewrite Hmin in Hd.
+  change (c_repeat default_cfg) with Last in Hd.
+  cbn [repeats_last_or_always is_always] in Hd.
+  destruct (m_chunk_size s <=? 1) eqn:E1.
+  - rewrite andb_true_r in Hd. destruct (m_removed s) eqn:Er; [|discriminate Hd].
+    injection Hd as Hd. subst s'. cbn [m_chunk_end m_removed m_chunk_size].
+    split; [reflexivity|]. split; [reflexivity|]. left. lia.
+  - rewrite andb_false_r in Hd. cbn [andb] in Hd.
+    injection Hd as Hd. subst s'. cbn [m_chunk_end m_removed m_chunk_size].
+    split; [reflexivity|]. split; [reflexivity|]. right. split; [lia | reflexivity].
+Qed.
+
+Lemma PI_fresh : forall s best, pow2 (m_chunk_size s) -> m_chunk_end s = zlen (tc_parts best) ->
+  PI s best.
+Proof.
+  intros s best Hp He. split; [exact Hp|].
+  exists (tc_parts best), []. split; [symmetry; apply app_nil_r|]. split; [symmetry; exact He|].
+  pose proof (MinimizeProofs.pow2_pos _ Hp) as H1.
+  split; [intros _; unfold cc; cbn [filter]; rewrite zlen_nil; lia|].
+  split; [|intros _; constructor].
+  intros _. split; [exact I|]. intros A x _. cbn [nadj hdcore]. split; [right; exact I | exact I].
+Qed.
+
+(* the end of a sweep: the state with which the next sweep starts *)
+Lemma round_change : forall s best s',
+  MI s best -> PI s best -> sub_reducible tc0 best ->
+  m_chunk_end s < m_chunk_size s -> tc_len best <> 0 ->
+  decide_state default_cfg s best = Some s' ->
+  PI s' best /\ Phi s' best <= Phi s best /\ m_chunk_size s' <= m_chunk_end s'.
+Proof.
+  intros s best s' HM HP Hsb Hlt HL Hd.
+  pose proof (c_sub_BF best Hsb) as HB.
+  pose proof (tc_len_nonneg best (bf_wf _ _ _ HB)) as HL0.
+  pose proof (bf_len _ _ _ HB) as Hlen. pose proof (bf_nd _ _ _ HB) as Hnd.
+  pose proof m_nonneg as Hm0.
+  destruct (decide_default s best s' HM Hd) as (Hce' & Hrm' & Hsz).
+  destruct HP as (Hp & H & T & Hps & HH & I4 & I2 & I1).
+  pose proof (zlen_nonneg _ H) as HH0.
+  assert (HndT : NoDup T) by (rewrite Hps in Hnd; apply nodup_app_r in Hnd; exact Hnd).
+  assert (HlenHT : tc_len best = m_chunk_end s + zlen T) by (rewrite Hlen, Hps, zlen_app; lia).
+  destruct Hsz as [(Hc & Hr & Hc')|(Hc & Hc')].
+  - (* repeat at size 1 *)
+    assert (Hp' : pow2 (m_chunk_size s')) by (rewrite Hc'; apply pow2_1).
+    split; [apply PI_fresh; [exact Hp' | lia]|]. split; [|lia].
+    assert (HH' : H = []).
+    { destruct H as [|h H]; [reflexivity|]. rewrite zlen_cons in HH.
+      pose proof (zlen_nonneg _ H). lia. }
+    subst H. cbn [app] in Hps. specialize (I1 Hc).
+    assert (Hall : forallb cp (tc_parts best) = true).
+    { rewrite Hps. apply forallb_forall. rewrite Forall_forall in I1. exact I1. }
+    pose proof (allcore_len T HndT I1) as HTm.
+    unfold Phi. rewrite Hc, Hc', Hr, Hrm', Hall, Hce'. change (1 <=? 1) with true. cbv iota.
+    cbn [orb negb]. rewrite zlen_nil in HH. lia.
+  - pose proof (halve_facts (m_chunk_size s) (tc_len best) Hp Hc) as Hh. cbv zeta in Hh.
+    rewrite <- Hc' in Hh. destruct Hh as (Hp' & Hd2 & Hskip & Hstop).
+    pose proof (MinimizeProofs.pow2_pos _ Hp') as H1'.
+    split; [apply PI_fresh; [exact Hp' | lia]|]. split; [|lia].
+    assert (Hg : forall b : bool, (if b then m else 0) <= m) by (intros b; destruct b; lia).
+    destruct (pow2_cases _ Hp) as [E|[E|E]]; [lia| |].
+    + (* from size 2 to size 1 *)
+      assert (E' : m_chunk_size s' = 1) by lia.
+      destruct (I2 E) as [HnT HnH].
+      assert (Hnps : nadj (tc_parts best)).
+      { rewrite Hps. destruct H as [|h [|h2 H]].
+        - exact HnT.
+        - apply (HnH [] h). reflexivity.
+        - rewrite !zlen_cons in HH. pose proof (zlen_nonneg _ H). lia. }
+      pose proof (nadj_len _ Hnps) as Hl2. pose proof (cc_le_m _ Hnd) as Hl3.
+      unfold Phi. rewrite E, E', Hce', Hrm'. change (1 <=? 1) with true.
+      change (2 <=? 1) with false. change (2 <=? 2) with true. cbv iota. cbn [orb].
+      specialize (Hg (negb (forallb cp (tc_parts best)))). lia.
+    + (* from a size >= 4 *)
+      specialize (I4 ltac:(lia)). pose proof (cc_le_m _ HndT) as HcT.
+      pose proof (cc_nonneg T) as HcT0.
+      assert (HLb : tc_len best < m_chunk_size s * (m + 1)) by nia.
+      assert (Hdiv0 : m_chunk_end s / m_chunk_size s = 0) by (apply Z.div_small; lia).
+      pose proof (log2_double_le (m_chunk_size s') (m_chunk_size s) ltac:(lia) Hd2) as Hlg.
+      pose proof (Z.log2_nonneg (m_chunk_size s')) as Hlg0.
+      unfold Phi. rewrite Hce', Hrm', Hdiv0.
+      replace (m_chunk_size s <=? 1) with false by lia.
+      replace (m_chunk_size s <=? 2) with false by lia. cbn [orb].
+      set (c := m_chunk_size s) in *. set (c' := m_chunk_size s') in *.
+      set (L := tc_len best) in *.
+      assert (H4 : 2 <= Z.log2 c) by (change 2 with (Z.log2 4); apply Z.log2_le_mono; lia).
+      destruct (pow2_cases _ Hp') as [E'|[E'|E']].
+      * (* to size 1: sizes were skipped *)
+        replace (c' <=? 1) with true by lia.
+        specialize (Hg (negb (forallb cp (tc_parts best)))).
+        assert (HL2 : L <= 2) by lia.
+        assert (2 * (2 * m + 1) <= Z.log2 c * (2 * m + 1)) by nia. lia.
+      * (* to size 2 *)
+        replace (c' <=? 1) with false by lia. replace (c' <=? 2) with true by lia.
+        destruct Hskip as [Hs|[Hs HLs]].
+        -- assert (Ec : c = 4) by lia. rewrite Ec in *. change (Z.log2 4) with 2. lia.
+        -- assert (H8 : 3 <= Z.log2 c).
+           { change 3 with (Z.log2 8). apply Z.log2_le_mono. lia. }
+           assert (3 * (2 * m + 1) <= Z.log2 c * (2 * m + 1)) by nia. lia.
+      * (* to a size >= 4 *)
+        replace (c' <=? 1) with false by lia. replace (c' <=? 2) with false by lia.
+        destruct Hskip as [Hs|[Hs HLs]].
+        -- assert (Hq : L / c' < 2 * m + 2) by (apply Z.div_lt_upper_bound; nia).
+           assert (Hlg' : Z.log2 c = Z.log2 c' + 1).
+           { rewrite <- Hs. rewrite Z.log2_double by lia. lia. }
+           rewrite Hlg'. lia.
+        -- assert (Hq : L / c' < 3) by (apply Z.div_lt_upper_bound; lia).
+           pose proof (log2_double_le (2 * c') c ltac:(lia) ltac:(lia)) as Hlg2.
+           rewrite Z.log2_double in Hlg2 by lia.
+           assert ((Z.log2 c' + 2) * (2 * m + 1) <= Z.log2 c * (2 * m + 1)) by nia. lia.
+Qed.
+
+(* ---- the driver loop ---- *)
+
+Lemma mono_shape : forall clk s best t k, MI s best -> wf best ->
+  mnext default_cfg clk no_post s best = Propose t k ->
+  exists s', k = k_of s' /\ rmslice best (fst (block_of s')) (m_chunk_end s') = Ok t /\
+    MI s' best /\
+    ((s' = s /\ m_chunk_size s <= m_chunk_end s) \/
+     (m_chunk_end s < m_chunk_size s /\ tc_len best <> 0 /\
+      decide_state default_cfg s best = Some s')).
+Proof.
+  intros clk s best t k HM Hwf Hn. rewrite (mnext_MI default_cfg clk s best HM) in Hn.
+  destruct (m_chunk_end s - m_chunk_size s <? 0) eqn:E1.
+  - destruct (tc_len best =? 0) eqn:E2; [discriminate Hn|].
+    unfold decide in Hn.
+    destruct (decide_state default_cfg s best) as [s'|] eqn:Ed; [|discriminate Hn].
+    rewrite propose_chunk_eq in Hn.
+    destruct (rmslice best (fst (block_of s')) (m_chunk_end s')) as [t1|e] eqn:Er;
+      [|discriminate Hn].
+    injection Hn as Ht Hk. subst t1. exists s'. split; [symmetry; exact Hk|].
+    split; [exact Er|].
+    destruct (decide_state_MI default_cfg s best s' HM Ed) as (HM' & _).
+    split; [exact HM'|]. right. split; [lia|]. split; [lia | reflexivity].
+  - rewrite propose_chunk_eq in Hn.
+    destruct (rmslice best (fst (block_of s)) (m_chunk_end s)) as [t1|e] eqn:Er;
+      [|discriminate Hn].
+    injection Hn as Ht Hk. subst t1. exists s. split; [symmetry; exact Hk|].
+    split; [exact Er|]. split; [exact HM|]. left. split; [reflexivity | lia].
+Qed.
+
+Definition Psi (a : lstate mstate) : Z :=
+  match a with LS st it w => n_tests (chron w) + Phi st (it_best it) end.
+Definition on_PI (a : lstate mstate) : Prop :=
+  match a with LS st it _ => PI st (it_best it) end.
+
+Lemma mono_step : forall clk a b,
+  lstep (minimize default_cfg clk no_post) (det f) a b ->
+  on_KI f default_cfg tc0 a -> on_PI a -> on_PI b /\ Psi b <= Psi a.
+Proof.
+  intros clk a b Hstep. destruct Hstep as
+    [st it w b0 st' Hn | st it w t k Hn Hm | st it w t k w' Hn Hm Hi | st it w t k w' Hn Hm Hi];
+    cbn [on_KI on_PI Psi]; intros (HJ & HI & HL) HP;
+    change (s_next (minimize default_cfg clk no_post) st (it_best it))
+      with (mnext default_cfg clk no_post st (it_best it)) in Hn;
+    pose proof (ji_wf _ _ _ HJ) as Hwf.
+  - exfalso.
+    destruct (mnext_shape default_cfg clk st (it_best it) HI Hwf)
+      as [(Hd & _)|(s' & t0 & _ & _ & _ & _ & Hp)]; rewrite Hn in *; discriminate.
+  - (* skipped *)
+    destruct (mono_shape clk st (it_best it) t k HI Hwf Hn) as (s' & Hk & Hrm & HI' & Hcase).
+    subst k.
+    assert (Hpre : PI s' (it_best it) /\ Phi s' (it_best it) <= Phi st (it_best it) /\
+                   m_chunk_size s' <= m_chunk_end s').
+    { destruct Hcase as [[E Hle]|(Hlt & HL0 & Hd)].
+      - subst s'. split; [exact HP|]. split; [lia | exact Hle].
+      - exact (round_change st (it_best it) s' HI HP (ji_sub _ _ _ HJ) Hlt HL0 Hd). }
+    destruct Hpre as (HP' & HPhi & Hle).
+    destruct (in_round s' (it_best it) t HI' HP' (ji_sub _ _ _ HJ) (ji_f _ _ _ HJ) Hle Hrm)
+      as [Hrej _].
+    assert (Hf : f (content t) = false).
+    { pose proof Hrm as Hrm0. unfold block_of in Hrm0. cbn [fst] in Hrm0.
+      pose proof (mi_cs _ _ HI') as Hc1.
+      assert (Hce1 : 1 <= m_chunk_end s') by lia.
+      destruct (mm_block (it_best it) _ _ t Hwf Hc1
+                  (conj Hce1 (mi_ce _ _ HI')) Hrm0) as (_ & _ & _ & Hlt).
+      specialize (Hlt (ji_ne _ _ _ HJ)).
+      destruct (f (content t)) eqn:E; [|reflexivity].
+      apply mem_bytes_In in Hm. pose proof (ji_tried _ _ _ HJ _ Hm E). lia. }
+    destruct (Hrej Hf Skipped ltac:(discriminate)) as [HP2 HPhi2].
+    split; [exact HP2 | lia].
+  - (* accepted *)
+    destruct (mono_shape clk st (it_best it) t k HI Hwf Hn) as (s' & Hk & Hrm & HI' & Hcase).
+    subst k.
+    assert (Hpre : PI s' (it_best it) /\ Phi s' (it_best it) <= Phi st (it_best it) /\
+                   m_chunk_size s' <= m_chunk_end s').
+    { destruct Hcase as [[E Hle]|(Hlt & HL0 & Hd)].
+      - subst s'. split; [exact HP|]. split; [lia | exact Hle].
+      - exact (round_change st (it_best it) s' HI HP (ji_sub _ _ _ HJ) Hlt HL0 Hd). }
+    destruct Hpre as (HP' & HPhi & Hle).
+    destruct (in_round s' (it_best it) t HI' HP' (ji_sub _ _ _ HJ) (ji_f _ _ _ HJ) Hle Hrm)
+      as [_ Hacc].
+    destruct (Hacc (det_yes f _ _ _ Hi)) as [HP2 HPhi2].
+    destruct (interesting_true_inv _ _ _ _ _ Hi) as [_ Hw']. subst w'.
+    rewrite MinimizeBound.n_tests_wafter. cbn [it_best].
+    split; [exact HP2 | lia].
+  - (* rejected *)
+    destruct (mono_shape clk st (it_best it) t k HI Hwf Hn) as (s' & Hk & Hrm & HI' & Hcase).
+    subst k.
+    assert (Hpre : PI s' (it_best it) /\ Phi s' (it_best it) <= Phi st (it_best it) /\
+                   m_chunk_size s' <= m_chunk_end s').
+    { destruct Hcase as [[E Hle]|(Hlt & HL0 & Hd)].
+      - subst s'. split; [exact HP|]. split; [lia | exact Hle].
+      - exact (round_change st (it_best it) s' HI HP (ji_sub _ _ _ HJ) Hlt HL0 Hd). }
+    destruct Hpre as (HP' & HPhi & Hle).
+    destruct (in_round s' (it_best it) t HI' HP' (ji_sub _ _ _ HJ) (ji_f _ _ _ HJ) Hle Hrm)
+      as [Hrej _].
+    destruct (Hrej (det_no f _ _ _ Hi) (Tested false) ltac:(discriminate)) as [HP2 HPhi2].
+    destruct (interesting_true_inv _ _ _ _ _ Hi) as [_ Hw']. subst w'.
+    rewrite MinimizeBound.n_tests_wafter. cbn [it_best].
+    split; [exact HP2 | lia].
+Qed.
+
+Lemma mono_steps : forall clk a b,
+  lsteps (minimize default_cfg clk no_post) (det f) a b ->
+  on_KI f default_cfg tc0 a -> on_PI a ->
+  on_KI f default_cfg tc0 b /\ on_PI b /\ Psi b <= Psi a.
+Proof.
+  intros clk a b Hs. induction Hs as [s|a b c Hab Hbc IH]; intros HK HP.
+  - split; [exact HK|]. split; [exact HP | lia].
+  - destruct (mono_step clk a b Hab HK HP) as [HPb Hle].
+    pose proof (KI_step f default_cfg clk tc0 a b Hab HK) as HKb.
+    destruct (IH HKb HPb) as (HKc & HPc & Hle2).
+    split; [exact HKc|]. split; [exact HPc | lia].
+Qed.
+
+Lemma pow2_30 : pow2 (2 ^ 30).
+Proof. exists 30. split; [lia | reflexivity]. Qed.
+
+Theorem mono_run_bound : forall clk fuel, tc_len tc0 <> 0 ->
+  n_tests (chron (result_world
+    (run (minimize default_cfg clk no_post) (det f) fuel tc0 (content tc0))))
+  <= 1 + Phi (mstart default_cfg clk tc0) tc0.
+Proof.
+  intros clk fuel Hlen.
+  pose proof (det_first_yes f (content tc0) c_f_tc0) as Hv.
+  destruct (run_cases mstate (minimize default_cfg clk no_post) (det f) fuel tc0 (content tc0))
+    as [[Hl _]|[(_ & Hv' & _)|[(_ & Hv' & _)|(_ & _ & He)]]].
+  - exfalso. exact (Hlen Hl).
+  - rewrite Hv in Hv'. discriminate Hv'.
+  - rewrite Hv in Hv'. discriminate Hv'.
+  - cbn [s_start minimize] in He. rewrite He.
+    pose proof (c_sub_BF tc0 (sub_reducible_refl tc0 Hwf0)) as HB0.
+    destruct (mstart_MI default_cfg clk tc0 eq_refl eq_refl eq_refl) as [HI0 Hce0].
+    assert (HK0 : on_KI f default_cfg tc0
+                    (LS (mstart default_cfg clk tc0) (it0 tc0) (wY tc0 (content tc0)))).
+    { cbn [on_KI]. split; [|split].
+      - constructor; cbn [it0 it_best it_tried].
+        + exact Hwf0.
+        + exact Hne0.
+        + apply sub_reducible_refl. exact Hwf0.
+        + exact c_f_tc0.
+        + intros c Hc. destruct Hc.
+      - exact HI0.
+      - apply LSP_fresh. exact Hce0. }
+    assert (HP0 : on_PI (LS (mstart default_cfg clk tc0) (it0 tc0) (wY tc0 (content tc0)))).
+    { cbn [on_PI it0 it_best]. apply PI_fresh.
+      - change (m_chunk_size (mstart default_cfg clk tc0))
+          with (Z.min (2 ^ 30) (largest_power_of_two_smaller_than (tc_len tc0))).
+        apply pow2_min; [exact pow2_30|].
+        apply (lpo2st_gen (tc_len tc0)). apply tc_len_nonneg. exact Hwf0.
+      - rewrite Hce0. exact (bf_len _ _ _ HB0). }
+    destruct (loop_follows_lsteps mstate (minimize default_cfg clk no_post) (det f) fuel
+                (mstart default_cfg clk tc0) (it0 tc0) (wY tc0 (content tc0)) _ eq_refl)
+      as (st' & it' & w' & Hs & Hfin).
+    destruct (mono_steps clk _ _ Hs HK0 HP0) as (_ & HPf & Hle).
+    cbn [on_PI Psi it0 it_best] in HPf, Hle.
+    change (n_tests (chron (wY tc0 (content tc0)))) with 1 in Hle.
+    pose proof (Phi_nonneg st' (it_best it') HPf) as Hnn.
+    destruct (loop (minimize default_cfg clk no_post) (det f) fuel (mstart default_cfg clk tc0)
+                   (it0 tc0) (wY tc0 (content tc0))) as [rc wf1|[e|] wf1|wf1] eqn:EL;
+      cbn [map_world result_world].
+    + destruct Hfin as (_ & Hwf1 & _). subst wf1.
+      rewrite MinimizeBound.n_tests_finally, MinimizeBound.n_tests_write_file. lia.
+    + destruct Hfin as (_ & Hwf1). subst wf1. rewrite MinimizeBound.n_tests_finally. lia.
+    + exfalso. exact (det_loop_not_raise _ _ _ _ _ _ _ _ EL).
+    + subst wf1. lia.
+Qed.
+
+(* the potential of the initial state *)
+Lemma Phi_start : forall clk, 1 <= tc_len tc0 ->
+  1 + Phi (mstart default_cfg clk tc0) tc0
+  <= mp_c10_bound (tc_len tc0) m +
+     (if tc_len tc0 <=? 2 ^ 31 then 0 else tc_len tc0 / 2 ^ 30).
+Proof.
+  intros clk Hn. pose proof m_nonneg as Hm0.
+  pose proof (MinimizeBound.clog2_nonneg (tc_len tc0)) as Hcl0.
+  unfold Phi.
+  change (m_chunk_size (mstart default_cfg clk tc0))
+    with (Z.min (2 ^ 30) (largest_power_of_two_smaller_than (tc_len tc0))).
+  change (m_chunk_end (mstart default_cfg clk tc0)) with (tc_len tc0).
+  change (m_removed (mstart default_cfg clk tc0)) with false.
+  cbn [orb]. unfold mp_c10_bound.
+  set (n := tc_len tc0) in *. set (lp := largest_power_of_two_smaller_than n).
+  destruct (lpo2st_gen n ltac:(lia)) as (Hplp & Hle2 & Hlt). fold lp in Hplp, Hle2, Hlt.
+  assert (H1n : n = 1 -> lp = 1) by (intros E; unfold lp; rewrite E; reflexivity).
+  assert (Hg : forall b : bool, (if b then m else 0) <= m) by (intros b; destruct b; lia).
+  assert (Hprod : 0 <= (2 * m + 1) * clog2 n) by (apply Z.mul_nonneg_nonneg; lia).
+  assert (Hlgn : Z.log2 n <= clog2 n) by (apply MinimizeBound.log2_le_clog2; lia).
+  assert (Hsmall : lp <= 2 ^ 30 ->
+    1 + (if lp <=? 1 then n + (if negb (forallb cp (tc_parts tc0)) then m else 0)
+         else if lp <=? 2 then n + (3 * m + 1)
+         else n / lp + Z.log2 lp * (2 * m + 1) + (3 * m + 2))
+    <= (2 * m + 1) * clog2 n + 5 * m + 8).
+  { intros _. specialize (Hg (negb (forallb cp (tc_parts tc0)))).
+    destruct (pow2_cases lp Hplp) as [E|[E|E]].
+    - replace (lp <=? 1) with true by lia. lia.
+    - replace (lp <=? 1) with false by lia. replace (lp <=? 2) with true by lia. lia.
+    - replace (lp <=? 1) with false by lia. replace (lp <=? 2) with false by lia.
+      assert (Hq : n / lp <= 2) by (apply Z.div_le_upper_bound; lia).
+      assert (Hl : Z.log2 lp <= Z.log2 n) by (apply Z.log2_le_mono; lia).
+      assert (Z.log2 lp * (2 * m + 1) <= clog2 n * (2 * m + 1))
+        by (apply Z.mul_le_mono_nonneg_r; lia).
+      lia. }
+  destruct (Z.le_gt_cases lp (2 ^ 30)) as [Hlp|Hlp].
+  - rewrite Z.min_r by exact Hlp. specialize (Hsmall Hlp).
+    destruct (n <=? 2 ^ 31) eqn:En; [lia|].
+    assert (0 <= n / 2 ^ 30) by (apply Z.div_pos; lia). lia.
+  - rewrite Z.min_l by lia.
+    assert (Hn31 : 2 ^ 31 < n).
+    { pose proof (pow2_lt_double (2 ^ 30) lp pow2_30 Hplp ltac:(lia)) as Hd.
+      change (2 * 2 ^ 30) with (2 ^ 31) in Hd. specialize (Hlt ltac:(lia)). lia. }
+    replace (n <=? 2 ^ 31) with false by lia.
+    change (2 ^ 30 <=? 1) with false. change (2 ^ 30 <=? 2) with false. cbv iota.
+    change (Z.log2 (2 ^ 30)) with 30.
+    assert (Hl : 31 <= Z.log2 n).
+    { change 31 with (Z.log2 (2 ^ 31)). apply Z.log2_le_mono. lia. }
+    assert (30 * (2 * m + 1) <= clog2 n * (2 * m + 1)) by (apply Z.mul_le_mono_nonneg_r; lia).
+    lia.
+Qed.
+
 End Count.
+
+(* The bound for every length: the reducer starts at chunk size min(2^30, ...), so above 2^31
+   atoms the first sweep alone makes tc_len / 2^30 proposals. *)
+Theorem minimize_monotone_test_count_general :
+  forall cfg clk f tc0 core fuel,
+    wf tc0 -> Forall (fun p => p <> []) (tc_parts tc0) -> NoDup (tc_parts tc0) ->
+    Forall (fun r => r = true) (tc_red tc0) ->
+    (forall c, In c core -> In c (tc_parts tc0)) -> mp_core_test f tc0 core ->
+    cfg = default_cfg -> tc_len tc0 <> 0 ->
+    n_tests (chron (result_world (run (minimize cfg clk no_post) (det f) fuel tc0 (content tc0))))
+      <= mp_c10_bound (tc_len tc0) (zlen core) +
+         (if tc_len tc0 <=? 2 ^ 31 then 0 else tc_len tc0 / 2 ^ 30).
+Proof.
+  intros cfg clk f tc0 core fuel Hwf Hne Hnd Hred Hcore Hct Hcfg Hlen. subst cfg.
+  assert (H1 : 1 <= tc_len tc0) by (pose proof (tc_len_nonneg tc0 Hwf); lia).
+  eapply Z.le_trans; [apply (mono_run_bound f tc0 core); assumption|].
+  apply Phi_start. exact H1.
+Qed.
+
+(* the statement of Props/C10.v (C10_test_count) with the missing hypothesis
+   tc_len tc0 <= 2^31 *)
+Theorem minimize_monotone_test_count_corrected :
+  forall cfg clk f tc0 core fuel,
+    wf tc0 -> Forall (fun p => p <> []) (tc_parts tc0) -> NoDup (tc_parts tc0) ->
+    Forall (fun r => r = true) (tc_red tc0) ->
+    NoDup core -> (forall c, In c core -> In c (tc_parts tc0)) -> mp_core_test f tc0 core ->
+    cfg = default_cfg -> tc_len tc0 <> 0 -> tc_len tc0 <= 2 ^ 31 ->
+    (Z.to_nat (2 * c09_bound (tc_len tc0)) <= fuel)%nat ->
+    n_tests (chron (result_world (run (minimize cfg clk no_post) (det f) fuel tc0 (content tc0))))
+      <= mp_c10_bound (tc_len tc0) (zlen core).
+Proof.
+  intros cfg clk f tc0 core fuel Hwf Hne Hnd Hred _ Hcore Hct Hcfg Hlen Hmax _.
+  pose proof (minimize_monotone_test_count_general cfg clk f tc0 core fuel Hwf Hne Hnd Hred
+                Hcore Hct Hcfg Hlen) as H.
+  replace (tc_len tc0 <=? 2 ^ 31) with true in H by lia. lia.
+Qed.
+
+(* ------------------------------------------------------------------ *)
+(* The statement without the length hypothesis is false               *)
+(* ------------------------------------------------------------------ *)
+(* n = 50 * 2^30 atoms, empty core (test always true): the first sweep runs at chunk size 2^30
+   and makes 50 accepted proposals, so the run makes 51 tests, but
+   c10_bound n 0 = clog2 n + 8 = 44.  (Far too large to evaluate: proved symbolically.) *)
+
+Lemma loop_tests_mono : forall S (strat : strategy S) verdict fuel st it w,
+  n_tests (chron w) <= n_tests (chron (result_world (loop strat verdict fuel st it w))).
+Proof.
+  intros S strat verdict. induction fuel as [|fuel IH]; intros st it w; cbn [loop].
+  - cbn [result_world]. lia.
+  - destruct (s_next strat st (it_best it)) as [t k|b st'| |e].
+    + destruct (mem_bytes (content t) (it_tried it)); [apply IH|].
+      destruct (interesting verdict w t true) as [w' a] eqn:Hi.
+      destruct (interesting_true_inv _ _ _ _ _ Hi) as [_ Hw]. subst w'.
+      pose proof (MinimizeBound.n_tests_wafter w t a) as Hn.
+      destruct a.
+      * eapply Z.le_trans; [|apply IH]. lia.
+      * eapply Z.le_trans; [|apply IH]. lia.
+      * cbn [result_world]. lia.
+    + eapply Z.le_trans; [|apply IH]. rewrite MinimizeBound.n_tests_write_file. lia.
+    + cbn [result_world]. rewrite MinimizeBound.n_tests_write_file. lia.
+    + cbn [result_world]. lia.
+Qed.
+
+Lemma first_round_lb : forall clk k fuel st it w,
+  (k <= fuel)%nat -> MI st (it_best it) -> wf (it_best it) ->
+  Forall (fun p : bytes => p <> []) (tc_parts (it_best it)) ->
+  m_chunk_size st = 2 ^ 30 -> m_chunk_end st = tc_len (it_best it) ->
+  Z.of_nat k * 2 ^ 30 <= tc_len (it_best it) ->
+  (forall c, In c (it_tried it) -> (length (content (it_best it)) <= length c)%nat) ->
+  n_tests (chron w) + Z.of_nat k <=
+  n_tests (chron (result_world
+    (loop (minimize default_cfg clk no_post) (det (fun _ => true)) fuel st it w))).
+Proof.
+  intros clk. induction k as [|k IH]; intros fuel st it w Hfu HM Hwf Hne Hcs Hce Hk Htr.
+  - rewrite Z.add_0_r. apply loop_tests_mono.
+  - destruct fuel as [|fuel]; [lia|]. cbn [loop].
+    change (s_next (minimize default_cfg clk no_post) st (it_best it))
+      with (mnext default_cfg clk no_post st (it_best it)).
+    rewrite (mnext_MI default_cfg clk st (it_best it) HM).
+    replace (m_chunk_end st - m_chunk_size st <? 0) with false by lia.
+    rewrite propose_chunk_eq.
+    destruct (rmslice_total (it_best it) (fst (block_of st)) (m_chunk_end st) Hwf) as [t Ht].
+    rewrite Ht.
+    pose proof Ht as Ht0. unfold block_of in Ht0. cbn [fst] in Ht0.
+    assert (Hc1 : 1 <= m_chunk_size st) by lia.
+    assert (Hce1 : 1 <= m_chunk_end st <= tc_len (it_best it)) by lia.
+    destruct (mm_block (it_best it) _ _ t Hwf Hc1 Hce1 Ht0) as (Hwt & Hsub & Hlen & Hlt).
+    specialize (Hlt Hne).
+    destruct (mem_bytes (content t) (it_tried it)) eqn:Hm.
+    { exfalso. apply mem_bytes_In in Hm. pose proof (Htr _ Hm). lia. }
+    destruct (interesting (det (fun _ => true)) w t true) as [w' a] eqn:Hi.
+    destruct (interesting_true_inv _ _ _ _ _ Hi) as [Ha Hw]. subst w'.
+    unfold det in Ha. subst a.
+    pose proof (MinimizeBound.n_tests_wafter w t Yes) as Hn.
+    eapply Z.le_trans; [|apply IH].
+    + lia.
+    + lia.
+    + cbn [it_best]. exact (k_of_succ_MI st (it_best it) t HM Hwf ltac:(lia) Ht).
+    + cbn [it_best]. exact Hwt.
+    + cbn [it_best]. exact (mm_sub_reducible_nonempty (it_best it) t Hwf Hsub Hne).
+    + unfold k_of. cbn [m_chunk_size]. exact Hcs.
+    + unfold k_of, block_of. cbn [m_chunk_end fst it_best]. lia.
+    + cbn [it_best]. lia.
+    + cbn [it_best it_tried]. intros c [Hc|Hc]; [subst c; lia|].
+      pose proof (Htr c Hc). lia.
+Qed.
+
+Lemma nodup_map_inj : forall (A B : Type) (g : A -> B) l,
+  (forall x y, g x = g y -> x = y) -> NoDup l -> NoDup (map g l).
+Proof.
+  intros A B g l Hinj Hn. induction Hn as [|x l Hx Hl IH]; cbn [map]; constructor.
+  - intros Hin. apply in_map_iff in Hin. destruct Hin as (y & Hy & Hin).
+    apply Hinj in Hy. subst y. exact (Hx Hin).
+  - exact IH.
+Qed.
+
+Section Refute.
+Variable bigN : nat.
+Hypothesis HbigN : Z.of_nat bigN = 50 * 2 ^ 30.
+
+Definition mono_enc (i : nat) : bytes := [N.of_nat i].
+Definition mono_cx : tcase :=
+  {| tc_before := []; tc_parts := map mono_enc (seq 0 bigN); tc_red := repeat true bigN;
+     tc_after := [] |}.
+
+Lemma mono_cx_wf : wf mono_cx.
+Proof. unfold wf, mono_cx. cbn [tc_parts tc_red]. rewrite map_length, seq_length, repeat_length. reflexivity. Qed.
+
+Lemma mono_cx_ne : Forall (fun p : bytes => p <> []) (tc_parts mono_cx).
+Proof.
+  apply Forall_forall. intros p Hp. cbn [mono_cx tc_parts] in Hp. apply in_map_iff in Hp.
+  destruct Hp as (i & Hi & _). subst p. unfold mono_enc. discriminate.
+Qed.
+
+Lemma mono_cx_nd : NoDup (tc_parts mono_cx).
+Proof.
+  cbn [mono_cx tc_parts]. apply nodup_map_inj; [|apply seq_NoDup].
+  intros x y H. unfold mono_enc in H. injection H as H. apply Nnat.Nat2N.inj. exact H.
+Qed.
+
+Lemma mono_cx_red : Forall (fun r => r = true) (tc_red mono_cx).
+Proof.
+  apply Forall_forall. intros r Hr. cbn [mono_cx tc_red] in Hr. apply repeat_spec in Hr. exact Hr.
+Qed.
+
+Lemma mono_cx_len : tc_len mono_cx = 50 * 2 ^ 30.
+Proof.
+  unfold tc_len. rewrite (count_false_allT _ mono_cx_red). cbn [mono_cx tc_parts].
+  unfold zlen. rewrite map_length, seq_length. lia.
+Qed.
+
+Lemma mono_cx_tests : forall clk fuel, (50 <= fuel)%nat ->
+  51 <= n_tests (chron (result_world
+          (run (minimize default_cfg clk no_post) (det (fun _ => true)) fuel mono_cx
+               (content mono_cx)))).
+Proof.
+  intros clk fuel Hfu. pose proof mono_cx_len as Hlen.
+  destruct (run_cases mstate (minimize default_cfg clk no_post) (det (fun _ => true)) fuel
+              mono_cx (content mono_cx))
+    as [[Hl _]|[(_ & Hv' & _)|[(_ & Hv' & _)|(_ & _ & He)]]].
+  - lia.
+  - discriminate Hv'.
+  - discriminate Hv'.
+  - rewrite He. cbn [s_start minimize].
+    destruct (mstart_MI default_cfg clk mono_cx eq_refl eq_refl eq_refl) as [HI0 Hce0].
+    assert (Hcs0 : m_chunk_size (mstart default_cfg clk mono_cx) = 2 ^ 30).
+    { change (m_chunk_size (mstart default_cfg clk mono_cx))
+        with (Z.min (2 ^ 30) (largest_power_of_two_smaller_than (tc_len mono_cx))).
+      destruct (lpo2st_gen (tc_len mono_cx) ltac:(lia)) as (_ & Hle2 & _). lia. }
+    pose proof (first_round_lb clk 50 fuel (mstart default_cfg clk mono_cx) (it0 mono_cx)
+                  (wY mono_cx (content mono_cx)) Hfu HI0 mono_cx_wf mono_cx_ne Hcs0 Hce0) as Hlb.
+    cbn [it0 it_best it_tried] in Hlb.
+    change (n_tests (chron (wY mono_cx (content mono_cx)))) with 1 in Hlb.
+    specialize (Hlb ltac:(lia) ltac:(intros c [])).
+    destruct (loop (minimize default_cfg clk no_post) (det (fun _ => true)) fuel
+                   (mstart default_cfg clk mono_cx) (it0 mono_cx) (wY mono_cx (content mono_cx)))
+      as [rc wf1|e wf1|wf1]; cbn [map_world result_world] in *;
+      rewrite ?MinimizeBound.n_tests_finally; lia.
+Qed.
+
+End Refute.
+
+Theorem minimize_monotone_test_count_false :
+  ~ (forall cfg clk f tc0 core fuel,
+      wf tc0 -> Forall (fun p => p <> []) (tc_parts tc0) -> NoDup (tc_parts tc0) ->
+      Forall (fun r => r = true) (tc_red tc0) ->
+      NoDup core -> (forall c, In c core -> In c (tc_parts tc0)) -> mp_core_test f tc0 core ->
+      cfg = default_cfg -> tc_len tc0 <> 0 ->
+      (Z.to_nat (2 * c09_bound (tc_len tc0)) <= fuel)%nat ->
+      n_tests (chron (result_world
+        (run (minimize cfg clk no_post) (det f) fuel tc0 (content tc0))))
+        <= mp_c10_bound (tc_len tc0) (zlen core)).
+Proof.
+  intros H.
+  assert (HN : Z.of_nat (Z.to_nat (50 * 2 ^ 30)) = 50 * 2 ^ 30) by (apply Z2Nat.id; lia).
+  set (bigN := Z.to_nat (50 * 2 ^ 30)) in *.
+  pose proof (mono_cx_len bigN HN) as Hlen.
+  set (fuel := Z.to_nat (2 * c09_bound (tc_len (mono_cx bigN)))).
+  assert (Hc09 : 50 <= c09_bound (tc_len (mono_cx bigN))).
+  { rewrite Hlen. unfold c09_bound.
+    pose proof (MinimizeBound.clog2_nonneg (50 * 2 ^ 30)). nia. }
+  specialize (H default_cfg (fun _ => 0) (fun _ => true) (mono_cx bigN) [] fuel
+                (mono_cx_wf bigN) (mono_cx_ne bigN) (mono_cx_nd bigN) (mono_cx_red bigN)
+                (NoDup_nil _) ltac:(intros c []) ltac:(intros t _; reflexivity) eq_refl
+                ltac:(lia) (le_n _)).
+  pose proof (mono_cx_tests bigN HN (fun _ => 0) fuel ltac:(unfold fuel; lia)) as Hlb.
+  rewrite Hlen in H. unfold mp_c10_bound in H.
+  change (clog2 (50 * 2 ^ 30)) with 36 in H. change (zlen (@nil bytes)) with 0 in H. lia.
+Qed.
+
+Print Assumptions minimize_exact_core.
+Print Assumptions minimize_monotone_test_count_general.
+Print Assumptions minimize_monotone_test_count_corrected.
+Print Assumptions minimize_monotone_test_count_false.
